@@ -39,9 +39,14 @@ def namedString (member : String) (p : Option Json) : String :=
   | some (.arr [.str s]) => s
   | _ => ""
 
-def expectedOutcome (r : Reply) : Res :=
+def expectedOutcome (dec : Decoder) (r : Reply) : Res :=
   match r.error with
-  | none => .ok (r.parameters.getD (.obj []))
+  | none =>
+    -- the payload must decode into the caller's reply type; if it does not, that is an error
+    -- of this operation only (the reply has still been received)
+    (match dec (r.parameters.getD (.obj [])) with
+     | some v => .ok v
+     | none => .err .badJson)
   | some name =>
     match stdErrors.find? (fun e => e.1 == name) with
     | some (_, member, mk) => .err (mk (namedString member r.parameters))
@@ -68,21 +73,23 @@ structure SeqCase where
   ops : List Op
   groups : List (Bool × List Msg)   -- (close afterwards, frames); group 0 on connect
   wbudget : Option Nat
+  dec : Decoder := decValue        -- the reply type of the call objects of this case
 
 def setCont (t : Track) (i : Nat) (b : Bool) : Track :=
   if b then (if t.cont.contains i then t else { t with cont := i :: t.cont })
   else { t with cont := t.cont.filter (· != i) }
 
 /-- a frame is read through object `i`; returns the expected result (`none` = the read blocks) -/
-def consume (t : Track) (i : Nat) : Option Res × Track :=
+def consume (dec : Decoder) (t : Track) (i : Nat) : Option Res × Track :=
   match t.frames with
   | [] => if t.closed then (some (.err .connectionClosed), t) else (none, t)
   | .ioerr c :: fs => (some (.err (if c then .connectionClosed else .io)), { t with frames := fs, owner := .lost })
   | .garbage :: fs => (some (.err .badJson), { t with frames := fs })
   | .reply r :: fs =>
     let t := { t with frames := fs }
-    if r.continues == some true then (some (expectedOutcome r), setCont t i true)
-    else (some (expectedOutcome r), { setCont t i false with owner := .idle })
+    -- whatever the payload: a reply without `continues: true` ends the call and frees the connection
+    if r.continues == some true then (some (expectedOutcome dec r), setCont t i true)
+    else (some (expectedOutcome dec r), { setCont t i false with owner := .idle })
 
 def isSendOp : Op → Bool
   | .call _ | .upgrade _ | .oneway _ | .more _ => true
@@ -125,13 +132,13 @@ def expectOp (c : SeqCase) (t : Track) (op : Op) : Option Res × Track :=
         match op with
         | .oneway _ => (some .unit, t)
         | .more _ => (some .unit, { t with owner := .owned i })
-        | _ => consume { t with owner := .owned i } i
+        | _ => consume c.dec { t with owner := .owned i } i
   else
     match op with
     | .next _ =>
       if !t.cont.contains i then (some .none, t)
-      else if t.owner == .owned i then consume t i else (some (.err .iteratorOldReply), t)
-    | _ => if t.owner == .owned i then consume t i else (some (.err .iteratorOldReply), t)
+      else if t.owner == .owned i then consume c.dec t i else (some (.err .iteratorOldReply), t)
+    | _ => if t.owner == .owned i then consume c.dec t i else (some (.err .iteratorOldReply), t)
 
 structure SeqObs where
   results : List Res
@@ -276,7 +283,14 @@ def P_C07_threads (c : ThrCase) (strict : Bool) (perThread : List (List Res)) (l
     let logV := idx.filterMap fun t =>
       let want := expectedLog c ((c.progs[t]?).getD []) ((perThread[t]?).getD [])
       let got := log.filter fun r => threadOfReq r == some t
-      if got == want then none else some "request-log-of-a-thread-differs-from-its-successful-sends"
+      -- an operation that was still waiting for its reply when the schedule ended has sent its request already
+      let sc : SeqCase := { objs := c.objs, ops := [], groups := [], wbudget := none }
+      let inflight : List Request :=
+        match ((c.progs[t]?).getD [])[((perThread[t]?).getD []).length]? with
+        | some op => if isSendOp op then (requestOf sc op).toList else []
+        | none => []
+      if got == want || (!strict && got == want ++ inflight) then none
+      else some "request-log-of-a-thread-differs-from-its-successful-sends"
     match logV with
     | v :: _ => some v
     | [] =>
